@@ -12,19 +12,22 @@ EXTENDS Naturals, Sequences, FiniteSets, TLC, Json
 CONSTANTS Services,   \* service names
           Handles,    \* service -> set of message names it registers
           AllMsgs,    \* every message name a client may send
-          MaxLen, FixD1, EmitHist
+          MaxLen, FixD1, EmitHist,
+          WithInFlight   \* TRUE: requests may be held inside their handler while services are added / removed
 
 VARIABLES services, present, handlers,
+          held,     \* services that currently have a request blocked inside its handler (dispatched earlier)
           reg,      \* oracle: services added and not removed since
           hist,     \* the add/remove history
           exps      \* oracle: expected served (service, message) pairs after each step
-vars == <<services, present, handlers, reg, hist, exps>>
+vars == <<services, present, handlers, held, reg, hist, exps>>
 
 Keys(s) == { <<s, m>> : m \in Handles[s] }
 
 Init ==
   /\ services = [s \in Services |-> {}]
   /\ present = {}
+  /\ held = {}
   /\ handlers = {}
   /\ reg = {}
   /\ hist = <<>>
@@ -41,6 +44,7 @@ Add(s) ==
   /\ reg' = reg \cup {s}
   /\ hist' = Append(hist, <<"add", s>>)
   /\ exps' = Append(exps, ExpectedServed(reg'))
+  /\ UNCHANGED held
 
 \* ServerState::remove_handlers
 Remove(s) ==
@@ -52,8 +56,24 @@ Remove(s) ==
   /\ reg' = reg \ {s}
   /\ hist' = Append(hist, <<"remove", s>>)
   /\ exps' = Append(exps, ExpectedServed(reg'))
+  /\ UNCHANGED held
 
-Next == Len(hist) < MaxLen /\ \E s \in Services : Add(s) \/ Remove(s)
+\* a request for the service's first message arrives and (if it is dispatched) stays inside its handler;
+\* dispatch is decided by the handler table at arrival - a request in flight keeps nothing registered
+Hold(s) ==
+  /\ WithInFlight /\ s \notin held
+  /\ held' = IF <<s, "Ping">> \in handlers THEN held \cup {s} ELSE held
+  /\ hist' = Append(hist, <<"hold", s>>)
+  /\ exps' = Append(exps, ExpectedServed(reg))
+  /\ UNCHANGED <<services, present, handlers, reg>>
+Release ==
+  /\ WithInFlight /\ held # {}
+  /\ held' = {}
+  /\ hist' = Append(hist, <<"release", "*">>)
+  /\ exps' = Append(exps, ExpectedServed(reg))
+  /\ UNCHANGED <<services, present, handlers, reg>>
+
+Next == Len(hist) < MaxLen /\ ((\E s \in Services : Add(s) \/ Remove(s) \/ Hold(s)) \/ Release)
 Spec == Init /\ [][Next]_vars
 
 \* ServerState::get_handler: dispatched iff a handler is present under the key
@@ -61,6 +81,8 @@ Served == handlers
 
 \* C13
 C13_ServedIffRegistered == Served = ExpectedServed(reg)
+\* a request is held only if its service was registered when it arrived
+C13_HeldWasRegistered == [][ \A s \in held' \ held : s \in reg ]_vars
 
 Emit == IF EmitHist /\ Len(hist) = MaxLen
         THEN PrintT(<<"HIST", ToJson([hist |-> hist, exps |-> exps])>>)
